@@ -46,12 +46,21 @@ theorem runC_eq_run (fuel : Nat) :
   | cons form rest ih =>
     intro Φ σ hist objs hrel hobjs
     cases form with
-    | defun f lam =>
-      simp only [runC, run]
-      rw [ih (define_rel hrel f lam) (hobjs.mono (define_ext σ f lam))]
+    | defun f binds lam =>
+      have hb : evalBinds (fun e => evalCode σ fuel [] (embed e)) binds
+          = evalBinds (fun e => eval Φ fuel [] e) binds := by
+        have := evalBinds_congr (ev₁ := fun e => evalCode σ fuel [] (embed e)) (ev₂ := fun e => eval Φ fuel [] e) id
+          (fun a => evalCode_eq_eval hrel fuel [] (embed_compiled σ a)) binds
+        simpa using this
+      simp only [runC, run, hb]
+      split
+      · next env _ =>
+        rw [ih (define_rel hrel (norm f) { lam with env := env })
+          (hobjs.mono (define_ext σ (norm f) { lam with env := env }))]
+      · rw [ih hrel hobjs]
     | undef f =>
       simp only [runC, run]
-      rw [ih (undefine_rel hrel f) (hobjs.mono (undefine_ext σ f))]
+      rw [ih (undefine_rel hrel (norm f)) (hobjs.mono (undefine_ext σ (norm f)))]
     | expr e =>
       simp only [runC, run]
       have hrel' := compile_rel hrel e
@@ -76,22 +85,22 @@ theorem runC_correct (fuel : Nat) (forms : List Form) :
 /-- the pre-survey example: `(defun g (x) (h x 2)) (defun h (a b) (+ a b)) (g 1)` is 3 —
     the forward call `(h x 2)` passes both arguments -/
 example : runC 10 Store.empty []
-    [.defun "g" (.simple ["x"] (.call "h" [.var "x", .const 2])),
-     .defun "h" (.simple ["a", "b"] (.prim .add (.var "a") (.var "b"))),
+    [.defun "g" [] (.simple ["x"] (.call "h" [.var "x", .const 2])),
+     .defun "h" [] (.simple ["a", "b"] (.prim .add (.var "a") (.var "b"))),
      .expr (.call "g" [.const 1])]
     = [.val (.sym "g"), .val (.sym "h"), .val (.int 3)] := by decide
 
 /-! ## defs_commute -/
 
 /-- the definitions as top-level forms -/
-def defForm (d : String × Lam) : Form := .defun d.1 d.2
+def defForm (d : String × Lam) : Form := .defun d.1 [] d.2
 
 /-- **defs_commute.** For definitions with distinct names, every permutation of the definitions
     followed by the same body (any forms: calls, mutual recursion through the definitions,
     re-evaluations, even redefinitions) gives the same results for the body. -/
 theorem defs_commute (fuel : Nat) (Φ₀ : FunTable) (hist : List Expr)
     (defs defs' : List (String × Lam)) (body : List Form)
-    (hperm : defs.Perm defs') (hnd : (defs.map (·.1)).Nodup) :
+    (hperm : defs.Perm defs') (hnd : (defs.map (fun d => norm d.1)).Nodup) :
     (run fuel Φ₀ hist (defs'.map defForm ++ body)).drop defs'.length
       = (run fuel Φ₀ hist (defs.map defForm ++ body)).drop defs.length := by
   rw [run_defs_aux fuel defForm (fun _ => rfl), run_defs_aux fuel defForm (fun _ => rfl)]
@@ -101,7 +110,7 @@ theorem defs_commute (fuel : Nat) (Φ₀ : FunTable) (hist : List Expr)
 /-- the same through compilation: whatever order the definitions are compiled in — callers before
     callees (placeholders, patched later) or after — the body results are the same -/
 theorem defs_commute_compiled (fuel : Nat) (defs defs' : List (String × Lam)) (body : List Form)
-    (hperm : defs.Perm defs') (hnd : (defs.map (·.1)).Nodup) :
+    (hperm : defs.Perm defs') (hnd : (defs.map (fun d => norm d.1)).Nodup) :
     (runC fuel Store.empty [] (defs'.map defForm ++ body)).drop defs'.length
       = (runC fuel Store.empty [] (defs.map defForm ++ body)).drop defs.length := by
   rw [runC_correct, runC_correct]
@@ -112,7 +121,7 @@ theorem defs_commute_compiled (fuel : Nat) (defs defs' : List (String × Lam)) (
 example :
     let ev : String × Lam := ("ev", .simple ["n"] (.ite (.prim .lt (.var "n") (.const 1)) (.const 1) (.call "od" [.prim .sub (.var "n") (.const 1)])))
     let od : String × Lam := ("od", .simple ["n"] (.ite (.prim .lt (.var "n") (.const 1)) (.const 0) (.call "ev" [.prim .sub (.var "n") (.const 1)])))
-    [ev, od].Perm [od, ev] ∧ ([ev, od].map (·.1)).Nodup ∧
+    [ev, od].Perm [od, ev] ∧ ([ev, od].map (fun d => norm d.1)).Nodup ∧
     runC 40 Store.empty [] ([od, ev].map defForm ++ [.expr (.call "ev" [.const 5])])
       = [.val (.sym "od"), .val (.sym "ev"), .val (.int 0)] := by
   refine ⟨List.Perm.swap _ _ _, by decide, by decide⟩
@@ -170,8 +179,8 @@ theorem redefinition_takes_effect {Φ : FunTable} {σ : Store} {e : Expr} {c : C
     redefinition of `f` sees the third body
     `(defun f () 1) (defun g () (f)) (defun f () 2) (defun h () (f)) (defun f () 3) (g) (h) (f)` -/
 example : runC 10 Store.empty []
-    [.defun "f" (.simple [] (.const 1)), .defun "g" (.simple [] (.call "f" [])), .defun "f" (.simple [] (.const 2)),
-     .defun "h" (.simple [] (.call "f" [])), .defun "f" (.simple [] (.const 3)),
+    [.defun "f" [] (.simple [] (.const 1)), .defun "g" [] (.simple [] (.call "f" [])), .defun "f" [] (.simple [] (.const 2)),
+     .defun "h" [] (.simple [] (.call "f" [])), .defun "f" [] (.simple [] (.const 3)),
      .expr (.call "g" []), .expr (.call "h" []), .expr (.call "f" []), .again 1]
     = [.val (.sym "f"), .val (.sym "g"), .val (.sym "f"), .val (.sym "h"), .val (.sym "f"),
        .val (.int 3), .val (.int 3), .val (.int 3), .val (.int 3)] := by decide
@@ -201,13 +210,13 @@ theorem undefine_then_define {Φ : FunTable} {σ σ' : Store} {e : Expr} {c : Co
 /-- `(defun f (x) (+ x 1)) (defun before (x) (f x)) (fmakunbound 'f) (before 10) (defun between (x) (f x))
     (defun f (x) (* x 2)) (defun after (x) (f x)) (before 10) (between 10) (after 10)` -/
 example : runC 10 Store.empty []
-    [.defun "f" (.simple ["x"] (.prim .add (.var "x") (.const 1))),
-     .defun "before" (.simple ["x"] (.call "f" [.var "x"])),
+    [.defun "f" [] (.simple ["x"] (.prim .add (.var "x") (.const 1))),
+     .defun "before" [] (.simple ["x"] (.call "f" [.var "x"])),
      .undef "f",
      .expr (.call "before" [.const 10]),
-     .defun "between" (.simple ["x"] (.call "f" [.var "x"])),
-     .defun "f" (.simple ["x"] (.prim .mul (.var "x") (.const 2))),
-     .defun "after" (.simple ["x"] (.call "f" [.var "x"])),
+     .defun "between" [] (.simple ["x"] (.call "f" [.var "x"])),
+     .defun "f" [] (.simple ["x"] (.prim .mul (.var "x") (.const 2))),
+     .defun "after" [] (.simple ["x"] (.call "f" [.var "x"])),
      .expr (.call "before" [.const 10]), .expr (.call "between" [.const 10]), .expr (.call "after" [.const 10])]
     = [.val (.sym "f"), .val (.sym "before"), .val (.sym "f"), .err (.undefinedFunction "f"),
        .val (.sym "between"), .val (.sym "f"), .val (.sym "after"),
@@ -219,12 +228,61 @@ example : runC 10 Store.empty []
     called three times with different arguments and once more from the kept code object:
     the `&aux` init forms are evaluated on every call -/
 example : runC 10 Store.empty []
-    [.defun "f" ⟨⟨["x"], [("o", .int 5)], [("k", .int 7)]⟩,
+    [.defun "f" [] ⟨⟨["x"], [("o", .int 5)], [("k", .int 7)]⟩,
         [("y", .prim .add (.var "x") (.var "o")), ("z", .prim .mul (.var "y") (.var "k"))],
-        .prim .sub (.var "z") (.var "x")⟩,
+        .prim .sub (.var "z") (.var "x"), []⟩,
      .expr (.call "f" [.const 1]), .expr (.call "f" [.const 2, .const 3]),
      .expr (.call "f" [.const 2, .const 3, .kw "k", .const 10]), .again 0, .again 2]
     = [.val (.sym "f"), .val (.int 41), .val (.int 33), .val (.int 48), .val (.int 41), .val (.int 48)] := by decide
+
+/-! ## symbol spelling and closures -/
+
+/-- **call_spelling.** Function names are symbols: two spellings with the same normal form (letter
+    case, package prefix) are the same call — in the direct semantics… -/
+theorem call_spelling {f f' : String} (h : norm f = norm f') (Φ : FunTable) (fuel : Nat) (env : Env)
+    (args : List Expr) :
+    eval Φ fuel env (.call f args) = eval Φ fuel env (.call f' args) := by
+  cases fuel with
+  | zero => simp [eval]
+  | succ n => simp only [eval, h]
+
+/-- …and in the mechanism: a call site compiled under one spelling — possibly before the function
+    exists, so that only a placeholder is registered — reaches the definition made under any other
+    spelling (the placeholder is registered, patched and removed under the normal form). -/
+theorem call_spelling_compiled {f f' : String} (h : norm f = norm f') {Φ : FunTable} {σ σ' : Store}
+    (args : List Expr) (hext : Ext (compile σ (.call f args)).2 σ') (hrel : Rel Φ σ') (fuel : Nat) (env : Env) :
+    evalCode σ' fuel env (compile σ (.call f args)).1 = eval Φ fuel env (.call f' args) := by
+  rw [compile_correct _ hext hrel, call_spelling h]
+
+/-- `(defun gd (x) (Fd x 1)) (defun fd (a b) (+ a b)) (gd 1) (CL-USER::GD 2) (fmakunbound 'FD) (gd 1)` -/
+example : runC 10 Store.empty []
+    [.defun "gd" [] (.simple ["x"] (.call "Fd" [.var "x", .const 1])),
+     .defun "fd" [] (.simple ["a", "b"] (.prim .add (.var "a") (.var "b"))),
+     .expr (.call "gd" [.const 1]), .expr (.call "CL-USER::GD" [.const 2]), .undef "FD", .again 0]
+    = [.val (.sym "gd"), .val (.sym "fd"), .val (.int 2), .val (.int 3), .val (.sym "fd"),
+       .err (.undefinedFunction "fd")] := by decide
+
+/-- closures: a `defun` inside a `let` captures the bindings; a caller compiled before (placeholder),
+    and the same caller after the function was defined again inside another `let`, see the captured
+    values of the *current* definition:
+    `(defun g (x) (f x)) (let ((c 5)) (defun f (x) (+ x c))) (g 1) (let ((c (g 2))) (defun f (x) (* x c))) (g 2)` -/
+example : runC 10 Store.empty []
+    [.defun "g" [] (.simple ["x"] (.call "f" [.var "x"])),
+     .defun "f" [("c", .const 5)] (.simple ["x"] (.prim .add (.var "x") (.var "c"))),
+     .expr (.call "g" [.const 1]),
+     .defun "f" [("c", .call "g" [.const 2])] (.simple ["x"] (.prim .mul (.var "x") (.var "c"))),
+     .expr (.call "g" [.const 2]), .again 0]
+    = [.val (.sym "g"), .val (.sym "f"), .val (.int 6), .val (.sym "f"), .val (.int 14), .val (.int 7)] := by decide
+
+/-- **closure_redefinition.** `redefinition_takes_effect` includes the captured environment: after a
+    `defun` evaluated inside a `let` (captured values `cenv`) every earlier code object runs the new
+    body *with the new captured values*. -/
+theorem closure_redefinition {Φ : FunTable} {σ : Store} {e : Expr} {c : Code}
+    (hrel : Rel Φ σ) (hc : Compiled σ e c) (f : String) (lam : Lam) (cenv : List (String × Val))
+    (fuel : Nat) (env : Env) :
+    evalCode (define σ (norm f) { lam with env := cenv }) fuel env c
+      = eval ((norm f, { lam with env := cenv }) :: Φ) fuel env e :=
+  redefinition_takes_effect hrel hc (norm f) { lam with env := cenv } fuel env
 
 /-! ## what the hypotheses exclude: the two defects of the unchanged tree, in model terms
 
@@ -242,7 +300,7 @@ example :
     redefinition re-points the name instead of sharing the cell): stale body -/
 example :
     let Φ : FunTable := [("f", .simple [] (.const 2))]
-    let σ : Store := ⟨[("f", 1)], [some ⟨⟨[], [], []⟩, [], .const 1⟩, some ⟨⟨[], [], []⟩, [], .const 2⟩]⟩
+    let σ : Store := ⟨[("f", 1)], [some ⟨⟨[], [], []⟩, [], .const 1, []⟩, some ⟨⟨[], [], []⟩, [], .const 2, []⟩]⟩
     evalCode σ 10 [] (.call (.cell 0) "f" []) = .val (.int 1) ∧
     eval Φ 10 [] (.call "f" []) = .val (.int 2) ∧ ¬ RefOK σ (.cell 0) "f" := by
   refine ⟨by decide, by decide, ?_⟩
